@@ -13,7 +13,7 @@
    The checkers [linear_path_valid], [ssa_path_valid], [tree_complete_b] are what the
    check runs, inside Coq, on every path / tree the real optimizers return. *)
 From Coq Require Import Lia Permutation.
-From Ctg Require Import Base Net PathValid Processor BaseFacts PathValidFacts ProcessorFacts BuilderFacts SsaLinearFacts.
+From Ctg Require Import Base Net PathValid Processor BaseFacts PathValidFacts ProcessorFacts BuilderFacts SsaLinearFacts RefineFacts.
 
 (* ---- path_valid_sound -------------------------------------------------------- *)
 (* an accepted linear path: every step references existing distinct positions, the
@@ -91,12 +91,31 @@ Theorem C05_processor_paths_valid : forall n os a choose fuel, 1 <= n ->
   exists a', a_remaining choose fuel a = Some a' /\ length (a_present a') = 1 /\
              ssa_path_valid n (a_path a') = true /\
              exists q, ssa_to_linear n (a_path a') = Some q /\ linear_path_valid n q = true.
-Proof.
-  intros n os a choose fuel Hn R Hc L.
-  destruct (processor_ssa_path_valid n os a choose fuel Hn R Hc L) as (a' & E & L1 & V).
-  exists a'. repeat split; try assumption. now apply ssa_to_linear_complete.
-Qed.
+Proof. exact processor_paths_valid. Qed.
 Print Assumptions C05_processor_paths_valid.
+
+(* ---- refinement: the concrete passes only emit abstract operations ------------------ *)
+(* [Ref c c']: the ok flag never returns to true, and whenever c' is flagged ok, c' is reached
+   from c by a sequence of abstract operations (contract_nodes / single-term step) on present
+   nodes.  Holds for every pass of the concrete model (which the correspondence compares
+   output-for-output with the code) for ALL inputs, legs, orders. *)
+Theorem C05_passes_refine : forall orders c,
+  Ref c (cp_simplify orders c) /\ Ref c (cp_greedy c) /\ Ref c (cp_remaining c) /\
+  Ref c (simplify_single_terms c) /\ Ref c (simplify_scalars c) /\ Ref c (simplify_batch c).
+Proof. exact passes_refine. Qed.
+Print Assumptions C05_passes_refine.
+
+(* optimize_greedy's pipeline on the concrete model, started from a fresh processor: if the run
+   flags no KeyError and one node is left (both are evaluated inside Coq on every correspondence
+   case), the recorded ssa_path is a valid complete SSA path and its ssa_to_linear image a valid
+   complete linear path *)
+Theorem C05_pipeline_valid : forall n orders c, cp_initial n c ->
+  let c' := cp_remaining (cp_greedy (cp_simplify orders c)) in
+  cp_ok c' = true -> length (cp_nodes c') = 1 ->
+  ssa_path_valid n (cp_path c') = true /\
+  exists q, ssa_to_linear n (cp_path c') = Some q /\ linear_path_valid n q = true.
+Proof. exact cp_pipeline_valid. Qed.
+Print Assumptions C05_pipeline_valid.
 
 (* ---- partition_builder_complete ------------------------------------------------ *)
 (* core.separate: the groups are non-empty and together are exactly the argument *)
